@@ -141,6 +141,7 @@ type runner struct {
 	blk     []*block
 	dead    bool
 	late    bool
+	force   int // next traces: 0 = late at random, -1 = render at once, +1 = late
 	pending []pend
 	pool    []byte // one input buffer reused for every byte string, like a driver reading into its buffer
 }
@@ -155,8 +156,48 @@ type pend struct {
 
 const hangLimit = 40 * time.Second
 
-func lzI64(s []int64) lazy  { return func() interface{} { return numsI64(s) } }
-func lzU32(s []uint32) lazy { return func() interface{} { return numsU32(s) } }
+// THE CALLER OWNS WHAT IT WAS GIVEN: once a returned aggregate has been rendered (every renderer runs
+// exactly once) the harness writes all over it - every element flipped, then the whole capacity
+// overwritten through s[:0], as a caller recycling the slice as scratch does.  Later calls must not
+// notice; the trace specification judges them.
+func lzI64(s []int64) lazy {
+	return func() interface{} {
+		out := numsI64(s)
+		for i := range s {
+			s[i] = ^s[i]
+		}
+		for s = s[:0]; len(s) < cap(s); {
+			s = append(s, -0x5a5a5a5a5a5a5a5a)
+		}
+		return out
+	}
+}
+
+func lzU32(s []uint32) lazy {
+	return func() interface{} {
+		out := numsU32(s)
+		for i := range s {
+			s[i] = ^s[i]
+		}
+		for s = s[:0]; len(s) < cap(s); {
+			s = append(s, 0xa5a5a5a5)
+		}
+		return out
+	}
+}
+
+func lzBytes(b []byte) lazy {
+	return func() interface{} {
+		out := tr.Ints(b)
+		for i := range b {
+			b[i] = ^b[i]
+		}
+		for b = b[:0]; len(b) < cap(b); {
+			b = append(b, 0x5a)
+		}
+		return out
+	}
+}
 
 func (r *runner) flush() {
 	for _, p := range r.pending {
@@ -188,6 +229,9 @@ func (r *runner) reset(nh int, src string) {
 	r.blk = make([]*block, nh)
 	r.dead = false
 	r.late = r.rng.Intn(2) == 0
+	if r.force != 0 {
+		r.late = r.force > 0
+	}
 	r.w.Emit(tr.E{"ev": "reset", "nh": nh, "src": src, "late": r.late})
 }
 
@@ -277,11 +321,18 @@ func (r *runner) fresh() {
 	r.emit(tr.E{"op": "fresh"}, func() (interface{}, bool) { r.cur = bmp.NewBit1024(); return 0, false })
 }
 
+// marshal returns the bytes for later use as an input: in a late trace the very slice Marshal returned
+// (it is rendered and then overwritten only when the trace is over), otherwise a copy, because the
+// original is overwritten as soon as it has been rendered.
 func (r *runner) marshal() []byte {
 	var out []byte
 	r.emit(tr.E{"op": "marshal"}, func() (interface{}, bool) {
-		out = r.cur.Marshal() // kept as returned
-		return lazy(func() interface{} { return tr.Ints(out) }), false
+		got := r.cur.Marshal() // kept as returned
+		out = got
+		if !r.late {
+			out = append([]byte{}, got...)
+		}
+		return lzBytes(got), false
 	})
 	return out
 }
@@ -998,7 +1049,7 @@ func (r *runner) raceRound(src string, G, per int) {
 				case x < 2:
 					cur = tr.E{"op": "marshal", "gor": g}
 					o := r.cur.Marshal()
-					out[g] = append(out[g], res{rec: cur, render: func() interface{} { return tr.Ints(o) }})
+					out[g] = append(out[g], res{rec: cur, render: lzBytes(o)})
 				case x < 4:
 					via := []string{"bit1024", "bigdata", "tipdata"}[rng.Intn(3)]
 					cur = tr.E{"op": "unmarshal", "bytes": tr.Ints(sharedCopy), "via": via, "gor": g}
@@ -1133,6 +1184,43 @@ func (r *runner) raceRound(src string, G, per int) {
 	}
 }
 
+// repeats: the same values (full, empty, one fixed sparse set, one 64-member set, a full block) are
+// encoded and listed again and again in one process, every result overwritten by its owner after use.
+// Run at several points of the run, once rendering at once and once late.
+func (r *runner) repeats(tag string) {
+	full := make([]int, 1024)
+	for i := range full {
+		full[i] = i
+	}
+	fixed := []int{0, 7, 63, 64, 500, 1023}
+	sixty4 := full[300:364]
+	vias := []string{"bit1024", "bigdata", "tipdata"}
+	for _, f := range []int{-1, 1} {
+		r.force = f
+		r.reset(2, "repeat:"+tag)
+		for k := 0; k < 3; k++ {
+			for j, ms := range [][]int{full, {}, fixed, sixty4, full} {
+				r.load(ms)
+				buf := r.marshal()
+				if (j+k)%2 == 0 {
+					r.fresh()
+					r.unmarshal(buf, vias[(j+k)%3], false)
+				}
+			}
+			kind := []string{"big", "tip"}[k%2]
+			r.bload(1, kind, uint32(k), full)
+			r.bload(2, kind, uint32(k+1), fixed)
+			r.bgetn(1, []string{"f", "r"}[k%2], 1024)
+			r.bgetn(1, []string{"r", "f"}[k%2], 1024)
+			r.bgetn(2, "f", 6)
+			r.bgetn(2, "f", 6)
+			r.lgetn(kind, []int{1, 2}, "f", 1030)
+			r.lgetn(kind, []int{1, 2}, "f", 1030)
+		}
+	}
+	r.force = 0
+}
+
 func main() {
 	plans := flag.String("plans", "", "directory of TLC-generated plans")
 	out := flag.String("out", "codec.ndjson", "traces")
@@ -1167,7 +1255,9 @@ func main() {
 			r.runPlan(p[1:], i)
 		}
 	}
+	r.repeats("start")
 	r.roundTrips(*nrt)
+	r.repeats("middle")
 	r.arbitraryBytes(*per)
 	for _, v := range bigBoundary {
 		r.blockScenario("big", v, "big")
@@ -1182,6 +1272,7 @@ func main() {
 	for i := 0; i < *nrace; i++ {
 		r.raceRound("race", 8, 12)
 	}
+	r.repeats("end")
 	r.flush()
 	w.Close()
 	fmt.Printf("events=%d\n", w.N())
